@@ -253,6 +253,21 @@ fn main() {
             let mut stats: BTreeMap<String, u64> = BTreeMap::new();
             let shard = a.shard.map(|(k, _)| k).unwrap_or(0) as u64;
             let mut r = Rng::new(name_seed(a.seed, &a.cmd, 10 + shard));
+            if a.cmd == "ledger" && shard == 0 {
+                // the macro-generated interfaces of the evolution families, version after version
+                let rep = isolated(|| abi::macro_ledger_chains().join("\n"));
+                if rep.starts_with("(abort") {
+                    writeln!(out, "!C15 macro-ledger-chains-aborted got={}", rep).unwrap();
+                }
+                for l in rep.split('\n') {
+                    if let Some(k) = l.strip_prefix("#stat ") {
+                        let (k, v) = k.rsplit_once(' ').unwrap();
+                        *stats.entry(k.to_string()).or_default() += v.parse::<u64>().unwrap();
+                    } else if !l.is_empty() && !l.starts_with("(abort") {
+                        writeln!(out, "{}", l).unwrap();
+                    }
+                }
+            }
             let mut left = a.cases;
             while left > 0 {
                 let n = left.min(abi::NSLOTS);
